@@ -9,7 +9,7 @@
    returned list, [o_graph] the working graph afterwards, [o_status] 0 iff the loop ended normally
    (1 = fuel |E|+1 exhausted, 2 = the ValueError of min() on an empty list). *)
 From Coq Require Import List Arith Bool.
-From GV Require Import Lib.Tree Lib.GraphE Model.Eecc Proofs.EeccP Proofs.EeccGenP Proofs.EeccFloatP Proofs.EeccSmallP.
+From GV Require Import Lib.Tree Lib.GraphE Model.Eecc Proofs.EeccP Proofs.EeccGenP Proofs.EeccFloatP Proofs.EeccSmallP Proofs.EeccWireP.
 Import ListNotations.
 
 (* the property, at full strength (all simple graphs, all m0 >= 2, all schedules) *)
@@ -64,6 +64,32 @@ Theorem C09_check_isolated_sound :
   forall g m0 c, isolated_ok_b g m0 c = true <-> IsolatedIntact g m0 c.
 Proof. exact isolated_ok_sound. Qed.
 Print Assumptions C09_check_isolated_sound.
+
+(* GENERAL, wire level: the graph every checker entry judges is exactly the simple graph of the edge list handed
+   over by the harness (u < v, the pair present in one orientation or the other; loops and repeats dropped). *)
+Theorem C09_norm_graph_spec : forall g u v, In (u, v) (norm_graph g) <-> u < v /\ adj g u v.
+Proof. exact norm_graph_spec. Qed.
+Print Assumptions C09_norm_graph_spec.
+
+(* GENERAL, wire level: the checker-only entry c09_check_cover (run on the implementation's covers of graphs too
+   large for the brute-force maximal-clique enumeration: no model, no max_cliques involved) answers 1 in its first
+   component exactly when the cover handed over is an ExactCover - the same Prop-level clause as in C09_statement -
+   of the simple graph handed over; 1 in its second exactly when the working graph was reported empty; and its
+   answers are the first two answers of c09_check (it judges the same clauses, it only omits IsolatedIntact). *)
+Theorem C09_check_cover_entry_sound : forall t,
+  t_nth 0 (c09_check_cover t) = of_bool true <->
+  ExactCover (norm_graph (t_pairs (t_nth 0 t))) (t_nat (t_nth 1 t)) (t_natss (t_nth 2 t)).
+Proof. exact check_cover_entry_sound. Qed.
+Print Assumptions C09_check_cover_entry_sound.
+
+Theorem C09_check_cover_entry_empty : forall t,
+  t_nth 1 (c09_check_cover t) = of_bool true <-> t_bool (t_nth 3 t) = false.
+Proof. exact check_cover_entry_empty. Qed.
+Print Assumptions C09_check_cover_entry_empty.
+
+Theorem C09_check_cover_entry_agrees : forall t, t_list (c09_check_cover t) = firstn 2 (t_list (c09_check t)).
+Proof. exact check_cover_entry_agrees. Qed.
+Print Assumptions C09_check_cover_entry_agrees.
 
 Theorem C09_max_cliques_sound :
   forall g K, In K (max_cliques g) -> max_clique g K /\ subseq K (verts g).
@@ -126,4 +152,16 @@ Example C09_checker_discriminates :
   exact_cover_b [(0,1);(0,2);(1,2);(2,3)] 3 [[0;1;2];[2;3]] = true /\
   exact_cover_b [(0,1);(0,2);(1,2);(2,3)] 2 [[0;1];[0;2];[1;2];[2;3];[1;2]] = false /\
   isolated_ok_b [(0,1);(0,2);(1,2);(2,3)] 3 [[0;1];[0;2];[1;2];[2;3]] = false.
+Proof. vm_compute. repeat split; reflexivity. Qed.
+
+
+(* non-vacuity of the checker-only entry on the wire (edges in arbitrary orientation, sparse labels): it accepts an
+   exact cover, rejects a cover in which one edge lies in two members, rejects a member above the bound, and reports a
+   non-empty working graph *)
+Example C09_check_cover_entry_discriminates :
+  let es := of_pairs [(21,20);(21,22);(20,22);(22,30);(30,41);(22,41);(20,41);(21,41)] in
+  c09_check_cover (L [es; of_nat 4; of_natss [[20;21;22;41];[22;30];[30;41]]; of_bool false]) = L [of_bool true; of_bool true] /\
+  c09_check_cover (L [es; of_nat 4; of_natss [[20;21;22;41];[22;30];[30;41];[20;21]]; of_bool false]) = L [of_bool false; of_bool true] /\
+  c09_check_cover (L [es; of_nat 3; of_natss [[20;21;22;41];[22;30];[30;41]]; of_bool false]) = L [of_bool false; of_bool true] /\
+  c09_check_cover (L [es; of_nat 4; of_natss [[20;21;22;41];[22;30];[30;41]]; of_bool true]) = L [of_bool true; of_bool false].
 Proof. vm_compute. repeat split; reflexivity. Qed.
